@@ -64,6 +64,7 @@ type FuncSpec struct {
 	NoBody    bool
 	Dead      []string // canaries that must be unreachable (proved, not assumed)
 	Callbacks map[string]string // callee expr -> callback contract name
+	CallSites map[string]string // call site -> overriding contract key
 }
 
 type SpecFunc struct {
@@ -76,6 +77,7 @@ type SpecFunc struct {
 	File   string
 	Line   int
 	Uninterp bool
+	Native   string // Go expression implementing an uninterpreted function at replay time
 }
 
 type Lemma struct {
@@ -172,7 +174,7 @@ func parseClause(text, file string, line int) Clause {
 var keywords = map[string]bool{"spec": true, "func": true, "trusted": true, "lemma": true, "requires": true,
 	"ensures": true, "ensures_on_panic": true, "may_panic": true, "modifies": true, "loop": true, "decreases": true,
 	"=": true, "witness": true, "ghost": true, "use": true, "assert": true, "replay_domain": true, "props": true,
-	"uninterpreted": true, "nobody": true, "callback": true, "end": true, "trigger": true, "ghostvar": true, "pred": true, "dead": true}
+	"uninterpreted": true, "nobody": true, "callback": true, "end": true, "trigger": true, "ghostvar": true, "pred": true, "dead": true, "native": true, "callsite": true}
 
 // LoadSpecs reads every zz_contracts_verif.go below root plus extra files.
 func LoadSpecs(files []string) *Specs {
@@ -237,6 +239,11 @@ func (sp *Specs) loadFile(file string) {
 			}
 		case "end":
 			curF, curS, curL = nil, nil, nil
+		case "native":
+			if curS == nil {
+				panic(fmt.Sprintf("%s:%d: native outside spec func", base, rl.line))
+			}
+			curS.Native = rest
 		case "ghostvar":
 			f := strings.Fields(rest)
 			if len(f) != 2 {
@@ -292,7 +299,7 @@ func (sp *Specs) loadFile(file string) {
 			if m == nil {
 				panic(fmt.Sprintf("%s:%d: bad func header %q", base, rl.line, t))
 			}
-			fs := &FuncSpec{Pkg: pkg, Header: hdr, Loops: map[int]*LoopSpec{}, Trusted: trusted, File: base, Line: rl.line, Props: props, Callbacks: map[string]string{}}
+			fs := &FuncSpec{Pkg: pkg, Header: hdr, Loops: map[int]*LoopSpec{}, Trusted: trusted, File: base, Line: rl.line, Props: props, Callbacks: map[string]string{}, CallSites: map[string]string{}}
 			name := m[3]
 			if m[2] != "" {
 				fs.RecvName = m[1]
@@ -365,13 +372,24 @@ func (sp *Specs) loadFile(file string) {
 		case "may_panic":
 			mustF(curF, base, rl.line).MayPanic = true
 		case "dead":
-			mustF(curF, base, rl.line).Dead = append(curF.Dead, strings.Fields(rest)...)
+			if strings.HasPrefix(rest, "src:") {
+				mustF(curF, base, rl.line).Dead = append(curF.Dead, rest)
+			} else {
+				mustF(curF, base, rl.line).Dead = append(curF.Dead, strings.Fields(rest)...)
+			}
 		case "nobody":
 			mustF(curF, base, rl.line).NoBody = true
 		case "modifies":
 			for _, m := range strings.Split(rest, ",") {
 				mustF(curF, base, rl.line).Modifies = append(curF.Modifies, strings.TrimSpace(m))
 			}
+		case "callsite":
+			// callsite <short>#<k> <contract key>: this call uses another (trusted) contract
+			f := strings.Fields(rest)
+			if len(f) != 2 {
+				panic(fmt.Sprintf("%s:%d: callsite <callee>#<k> <contract>", base, rl.line))
+			}
+			mustF(curF, base, rl.line).CallSites[f[0]] = f[1]
 		case "callback":
 			// callback <callee-text> <contract-name>
 			f := strings.Fields(rest)
